@@ -337,8 +337,9 @@ def c03(ctx):
     # B2: the states of the model's reachable graph, every operation applied to each on the real code
     rows = os.path.join(ctx.dir, "c03.states.ndjson")
     V.tlc_emit(ctx, "Gen_C03", rows, cfg="Gen_C03_thorough.cfg" if thorough else "Gen_C03.cfg")
-    summ2 = V.gen_traces(ctx, shards=12, name="trace-b2", extra=["-in", rows])
-    V.validate(ctx, "Trace_C03", summ2, c03_sig, par=12)
+    # (thorough: about 1.5 million events; 48 shard files keep each TLC run's input below 100 MB)
+    summ2 = V.gen_traces(ctx, shards=48 if thorough else 12, name="trace-b2", extra=["-in", rows])
+    V.validate(ctx, "Trace_C03", summ2, c03_sig, par=12, timeout=3000)
     if ctx.tier == "thorough":
         # structured fuzzing: the fuzzer's bytes drive the history generator; the corpus is regenerated and judged
         rows, nrows = V.go_fuzz(ctx, "FuzzC03", 120, parallel=8)
